@@ -1019,6 +1019,11 @@ def k_cancel_idle(b):
     cs = b.pick(lambda c: c.alive and not c.blocked and not c.holding and c.n > 0) or b.pick(lambda c: c.alive and not c.blocked)
     if not cs:
         return False
+    if not (cs.holding or cs.copy):
+        # the client has read its last reply, pgcat may still be on its way to giving the server back (and to forgetting the
+        # cancel key): wait until the pools report the believed number of borrowed connections, as quiesce() does
+        inuse = sum(1 for c in b.alive() if (c.holding or c.copy) and not c.stale and not c.blocked)
+        b.steps.append({"op": "wait_inuse", "n": inuse, "timeout_ms": 2000})
     _cancel_step(b, "cancel_idle", cs, cs.holding or cs.copy)
     b.act("cancel_idle")
     return True
